@@ -95,7 +95,7 @@ theorem wchangeActive_JA {aw : Option (List Field)} (hw : IdWritable aw) {k : KS
   cases hf : kfind k id with
   | none => exact ⟨hj, h⟩
   | some m =>
-    refine ⟨hj, fun _ => ?_⟩
+    refine ⟨hj, fun _ _ => ?_⟩
     have hmem : (id, m) ∈ k.recs := kfindL_some hf
     have hkey : id = m.id := hj.kc _ hmem
     have hid : (if k.active.id ≠ (writeActive aw k.active m).id then
@@ -121,7 +121,7 @@ theorem wstep_JA {aw : Option (List Field)} (hw : IdWritable aw) {k : KSt} (hj :
       cases hf : kfind k m.id with
       | none => exact ⟨hj, h⟩
       | some st =>
-        refine ⟨hj, fun _ => ?_⟩
+        refine ⟨hj, fun _ _ => ?_⟩
         show (writeActive aw k.active m).id ∈ k.recs.map (·.1)
         rw [writeActive_id hw]
         exact (kfindL_isSome_iff _ _).mp (by show (kfind k m.id).isSome = true; rw [hf]; rfl)
